@@ -14,9 +14,10 @@ import (
 // closures, constructor helpers and function-typed parameters, and records the
 // Go operators / math calls that are applied to them.
 type opTracer struct {
-	out  map[string]bool
-	seen map[*ssa.Function]bool
-	dyn  func(ssa.Value) *ssa.Function // optional: function values determined by an evaluated path
+	out   map[string]bool
+	seen  map[*ssa.Function]bool
+	dyn   func(ssa.Value) *ssa.Function // optional: function values determined by an evaluated path
+	inPhi map[*ssa.Phi]bool
 }
 
 type opEnv struct {
@@ -52,6 +53,43 @@ func (t *opTracer) sideOf(fn *ssa.Function, v ssa.Value, env *opEnv, depth int) 
 		}
 	case *ssa.ChangeType:
 		return t.sideOf(fn, x.X, env, depth+1)
+	case *ssa.Convert:
+		// a numeric conversion of an operand is still that operand (int64(y), float64(n))
+		return t.sideOf(fn, x.X, env, depth+1)
+	case *ssa.BinOp:
+		// a value computed from one operand alone (x*x, n>>1, x*2) belongs to that operand
+		a, b := t.sideOf(fn, x.X, env, depth+1), t.sideOf(fn, x.Y, env, depth+1)
+		_, ca := x.X.(*ssa.Const)
+		_, cb := x.Y.(*ssa.Const)
+		switch {
+		case a != "" && (a == b || cb):
+			return a
+		case b != "" && ca:
+			return b
+		}
+	case *ssa.Phi:
+		// a loop-carried operand: the side its entries agree on (edges that lead back to the phi
+		// itself do not count)
+		if t.inPhi == nil {
+			t.inPhi = map[*ssa.Phi]bool{}
+		}
+		if t.inPhi[x] {
+			return ""
+		}
+		t.inPhi[x] = true
+		defer delete(t.inPhi, x)
+		side := ""
+		for _, e := range x.Edges {
+			s := t.sideOf(fn, e, env, depth+1)
+			if s == "" {
+				continue
+			}
+			if side != "" && side != s {
+				return ""
+			}
+			side = s
+		}
+		return side
 	}
 	return ""
 }
